@@ -78,10 +78,10 @@ def _class_method_names(cls):
 
 def fact_space():
     for ent, ints, udf, ct, preds in itertools.product(
-            ([], ['e']), (set(), {'int1'}, {'files'}, {'views'}, {'int1', 'int2'}), ([], ['f']), ('api', 'sql', 'no-class-type', 'not-in-catalog'), ([], ['p'])):
+            ([], ['e']), (set(), {'int1'}, {'files'}, {'views'}, {'int1', 'int2'}, {'pg_views'}, {'datafiles'}), ([], ['f']), ('api', 'sql', 'no-class-type', 'not-in-catalog'), ([], ['p'])):
         facts = {'mdb_entities': ent, 'integrations': ints, 'predictors': preds, 'user_functions': udf}
         catalog = {}
-        for n in ('int1', 'int2', 'files', 'views'):
+        for n in ('int1', 'int2', 'files', 'views', 'pg_views', 'datafiles'):        # the last two: ordinary SQL databases whose names merely contain files / views
             catalog[n] = {'name': n}
         if ct == 'api':
             catalog['int1']['class_type'] = 'api'
@@ -89,7 +89,7 @@ def fact_space():
             catalog['int1']['class_type'] = 'sql'
         elif ct == 'not-in-catalog':
             del catalog['int1']
-        want = ent == [] and ints == {'int1'} and udf == [] and ct != 'api'
+        want = ent == [] and udf == [] and ((ints == {'int1'} and ct != 'api') or ints in ({'pg_views'}, {'datafiles'}))
         label = f"entities={len(ent)} integrations={sorted(ints)} udf={len(udf)} class_type={ct}" + (' table-named-like-a-model' if preds else '')
         yield facts, catalog, want, label
 
@@ -140,11 +140,11 @@ def run(ctx):
                            f'{name} refuses [{label}] but has already {"; ".join(e[0] for e in effs)}: the query object or the plan is modified on a refused pushdown',
                            file=file, line=fn.lineno)
                 elif want:
-                    _check_effects(ctx, name, fn, r, effs, file, label)
+                    _check_effects(ctx, name, fn, r, effs, file, label, sorted(facts['integrations'])[0])
             else:
                 ctx.ob('C11.one-step', f'{name}:pure', not effs, f'{name} is expected to decide only', file=file, line=fn.lineno)
                 if accepted and want:
-                    ctx.ob('C11.gate', f'{name}:returns-integration:{label}', r['result'] == 'int1',
+                    ctx.ob('C11.gate', f'{name}:returns-integration:{label}', [r['result']] == sorted(facts['integrations']),
                            f'{name} returns {r["result"]!r} instead of the single integration', file=file, line=fn.lineno)
     ctx.setcount('gate_rows', nrows)
     # PlanJoin.plan and QueryPlanner.from_query, interpreted with the gate's answer given: on acceptance nothing but the one fetch happens --------------
@@ -309,7 +309,7 @@ def run(ctx):
     ctx.floor('walker_obligations', 100)
 
 
-def _check_effects(ctx, name, fn, r, effs, file, label):
+def _check_effects(ctx, name, fn, r, effs, file, label, the_int='int1'):
     qparam = fn.args.args[1].arg
     kinds = [e[0] for e in effs]
     ok = kinds == ['prepare_integration_select', 'add_step']
@@ -317,11 +317,11 @@ def _check_effects(ctx, name, fn, r, effs, file, label):
     step = None
     if ok:
         prep, add = effs
-        ok = len(prep[1]) == 2 and prep[1][0] == 'int1' and prep[1][1] is r['query']
+        ok = len(prep[1]) == 2 and prep[1][0] == the_int and prep[1][1] is r['query']
         step = add[1][0]
         if ok and isinstance(step, Obj) and step.kind == 'FetchDataframeStep':
             kw = {k: v for k, v in step.attrs.items() if not k.startswith('_')}
-            ok = set(kw) == {'integration', 'query'} and kw['integration'] == 'int1' and kw['query'] is r['query'] and not step.attrs.get('_pos')
+            ok = set(kw) == {'integration', 'query'} and kw['integration'] == the_int and kw['query'] is r['query'] and not step.attrs.get('_pos')
             detail = f'FetchDataframeStep({sorted(kw)})'
         else:
             ok = False
